@@ -302,7 +302,7 @@ def main(tier, seed):
     try:
         translate()
         run.obligation("translate:cluster.py M-step + split loop", True)
-    except TranslateError as e:
+    except Exception as e:  # fail closed: anything the translator cannot digest
         run.obligation("translate:cluster.py M-step + split loop", False, str(e))
     run.prove("Props/C15.v", link_rels=["Link/Mixture.v"])
     try:
